@@ -13,8 +13,8 @@ from c03 import o_glob, o_lower, swapcase_irc
 
 PROPERTY = 'C04'
 MANIFEST = {
- 'level_text': 'Lean 4 theorems about a model of ircdb.UsersDictionary (user records, hostmask sets, logins with timeout, _hostmaskCache and _nameCache with the CacheDict clear-when-full behaviour), kernel-checked: for every history of register / hostmask add / remove / identify / unidentify / changename / set secure / users.conf load / delUser / clock ticks / lookups, every lookup answers exactly what the cache-free, effect-free recomputation on the current records answers (invariant: a cached hostmask is matched by no other user, reverse entries are complete); an answer id is a user one of whose patterns globs the hostmask or who has an unexpired login from exactly that hostmask, and no second user matches; a secure account needs a pattern; two accounts never own masks with a hostmask in common (invariant of every history; the overlap test hostmaskPatternsIntersect is proved complete and sound); the glob matcher equals a declarative match relation and is invariant under IRC case folding. The register / identify / unidentify / hostmask add / hostmask remove / set secure / whoami commands of the User plugin (converters and guards, password test as a parameter) are modelled on top: no dictionary operation but identify creates a login, the plugin runs identify only after the password test of the account for the exact sender, hence every login entry in every reachable state is backed by an identify WITH THE PASSWORD from that exact hostmask (ghost log), and a recognised sender matches a registered mask or identified with the password within the timeout. The table-like constants (cache size, unWildcard set, minimum, the hostmask regexp shape, rfc1459 table) are re-extracted from /repo on every run; the model is tied to src/ircdb.py / src/ircutils.py by a differential run that compares outcomes, records and both caches, and evaluates the property statement on the implementation.',
- 'level_note': 'Trusted: Lean kernel; axioms propext/Classical.choice/Quot.sound only; the extractors; the correspondence harness. Modelled and proved: getUserId (both paths, cache hit re-validation, duplicate removal incl. the removeHostmask(True) quirk), getUser, setUser, delUser, newUser, invalidateCache, checkHostmask, addAuth, clearAuth, addHostmask, removeHostmask, the plugin call sequences as operations, glob matcher, isUserHostmask. Not modelled: lazy physical removal of expired logins (unobservable: every read filters by liveness; harness compares live logins); the salted password hash (a parameter pwOk of the plugin model; the driver instantiates it with equality of the secrets, the harness uses the real salted hashes of the bot); the per-message lookups of the sender that the bot does of the sender outside the command (checkIgnored, command capabilities, reply options: cache effects only unless the sender matches two accounts, which the plugin stream avoids); the nick fallback of the otherUser converter; `hostmask remove all`; str.lower() of account names outside ASCII (hostmask matching is ASCII-only case-insensitive since the re.A repair and modelled exactly for all of Unicode); user names that look like hostmasks are outside the history theorem (inside the correspondence). The former finding (masks with a common instance accepted) is repaired: setUser uses hostmaskPatternsIntersect, proved complete and sound, and no history leaves two accounts with overlapping masks.',
+ 'level_text': 'Lean 4 theorems about a model of ircdb.UsersDictionary (user records, hostmask sets, logins with timeout, _hostmaskCache and _nameCache with the CacheDict clear-when-full behaviour), kernel-checked: for every history of register / hostmask add / remove / identify / unidentify / changename / set secure / users.conf load / delUser / clock ticks / lookups, every lookup answers exactly what the cache-free, effect-free recomputation on the current records answers (invariant: a cached hostmask is matched by no other user, reverse entries are complete); an answer id is a user one of whose patterns globs the hostmask or who has an unexpired login from exactly that hostmask, and no second user matches; a secure account needs a pattern; two accounts never own masks with a hostmask in common (invariant of every history; the overlap test hostmaskPatternsIntersect is proved complete and sound); the glob matcher equals a declarative match relation and is invariant under IRC case folding. The register / identify / unidentify / hostmask add / hostmask remove (incl. all) / set secure / changename / whoami commands of the User plugin (converters and guards, password test as a parameter) are modelled on top: no dictionary operation but identify creates a login, the plugin runs identify only after the password test of the account for the exact sender, NICK messages are modelled too (Irc.doNick under supybot.followIdentificationThroughNickChanges, IrcState.doNick): the one other writer of login entries moves a login only from the hostmask of the NICK sender (IRC case rules) to that sender with the new nick. Hence every login entry in every reachable state goes back to an identify WITH THE PASSWORD (ghost log) from that exact hostmask — or, only when the option is on, from a hostmask that the server NICK messages turned into it, each sent by exactly the hostmask reached so far — and a recognised sender matches a registered mask or holds such a login within the timeout. Every command is processed as the live bot does: the sender is remembered, and the lookups of the sender that the bot itself makes before and after (any number) are part of the step; a sender matching two accounts gets nothing executed. The table-like constants (cache size, unWildcard set, minimum, the hostmask regexp shape, rfc1459 table) are re-extracted from /repo on every run; the model is tied to src/ircdb.py / src/ircutils.py by a differential run that compares outcomes, records and both caches, and evaluates the property statement on the implementation.',
+ 'level_note': 'Trusted: Lean kernel; axioms propext/Classical.choice/Quot.sound only; the extractors; the correspondence harness. Modelled and proved: getUserId (both paths, cache hit re-validation, duplicate removal incl. the removeHostmask(True) quirk), getUser, setUser, delUser, newUser, invalidateCache, checkHostmask, addAuth, clearAuth, addHostmask, removeHostmask, the plugin call sequences as operations, glob matcher, isUserHostmask. Also inside: the per-message lookups of the sender that the bot makes around a command (counts measured on the live bot, theorems hold for any counts), the nick fallback of the otherUser converter, hostmask remove all, changename to names that look like hostmasks, Irc.doNick login following (with the pruning scan that the preceding lookup runs on the login list, and setUser inside the loop). Not modelled: lazy physical removal of expired logins elsewhere (unobservable: every other read filters by liveness; harness compares live logins); the salted password hash (a parameter pwOk of the plugin model; the driver instantiates it with equality of the secrets, the harness uses the real salted hashes of the bot); str.lower() of account names outside ASCII (hostmask matching is ASCII-only case-insensitive since the re.A repair and modelled exactly for all of Unicode); NICK messages whose prefix is not nick!user@host. The former finding (masks with a common instance accepted) is repaired: setUser uses hostmaskPatternsIntersect, proved complete and sound, and no history leaves two accounts with overlapping masks.',
  'technique': 'Lean 4 proof (state-machine invariant over operation histories, refinement to the cache-free lookup) + constant extraction + differential correspondence incl. cache contents',
  'design_ref': 'DESIGN.md §6 C04',
 }
@@ -28,6 +28,8 @@ THEOREMS = ['C04.cache_transparent', 'C04.getUserId_sound', 'C04.getUserId_uniqu
             'C04.step_auth', 'C04.guard_identify', 'C04.pstep_pinv', 'C04.auth_backed_by_password',
             'C04.recognised_by_mask_or_password', 'C04.addAuth_secure', 'C04.pstepA_pinv',
             'C04.ambiguous_sender_runs_nothing',
+            # NICK messages: Irc.doNick moves a login only from the NICK sender to that sender's new hostmask
+            'C04.guard_not_follow', 'C04.nickStep_pinv', 'C04.estep_pinv', 'C04.followed_nick_only',
             # obligation on the extracted case table
             'C04.rfc1459_table_classes', 'C03.rfc1459_table_ok']
 TRUSTED = ['Lean 4.33.0 kernel; axioms ⊆ {propext, Classical.choice, Quot.sound}',
@@ -42,7 +44,9 @@ RULE = ('history = reset(timeout), then 5–60 operations over ≤5 accounts dra
         'unrecognised/secure senders, unidentify, hostmask add/remove, set secure, whoami, ticks): reply kind, records and the ghost log of '
         'password-backed identifications AND both caches are compared with the model after every command, including the lookups of the '
         'sender that the bot itself makes around each command (a sender matching two accounts: dispatch abandoned, masks deleted), the nick '
-        'fallback of otherUser, hostmask remove all, changename to hostmask-like names. '
+        'fallback of otherUser, hostmask remove all, changename to hostmask-like names; NICK messages from seen and unseen clients with '
+        'supybot.followIdentificationThroughNickChanges on (half of the histories) or off — Irc.doNick moving logins, IrcState.doNick the '
+        'nick table. '
         'Non-trivial = the history contains a cache hit after an edit, a duplicate, an expiry, a rollback or a rejection; distinct = distinct '
         'operation list. Streams: hist, hostile (hostmask-like names, line breaks, odd masks), overflow (>1000 distinct lookups), '
         'glob (pattern/hostmask pairs), corpus/finding witnesses first.')
@@ -79,6 +83,25 @@ class Impl(object):
                     impl.dup_lookups.append(s)
                 raise
         self.ircdb.UsersDictionary.getUserId = watched
+        # observe (not alter) Irc.doNick: did an exception escape it (feedMsg's firewall logs and swallows it)?
+        self.nick_exc = None
+        origN = self.b.irclib.Irc.doNick
+        def watchedN(irc, msg):
+            try:
+                return origN(irc, msg)
+            except Exception as e:
+                impl.nick_exc = e; raise
+        self.b.irclib.Irc.doNick = watchedN
+
+    def set_follow(self, b):
+        self.conf.supybot.followIdentificationThroughNickChanges.setValue(bool(b))
+
+    def nick(self, p, nn):
+        """the server says: `p` is now known as `nn`"""
+        self.nick_exc = None
+        self.b.irc.feedMsg(self.b.ircmsgs.IrcMsg(prefix=p, command='NICK', args=(nn,)))
+        bot.drain(self.b)
+        return 'generic' if self.nick_exc is not None else 'silent'
 
     def ambient(self):
         """how many times the bot looks the sender up around a command with this set of plugins: measured once"""
@@ -118,6 +141,7 @@ class Impl(object):
         self.ircdb.channels.channels.clear()
         self.timeout = timeout
         self.clock.now = 0
+        self.set_follow(False)
 
     def live_auth(self, u):
         t = self.timeout; now = self.clock.now
@@ -511,6 +535,9 @@ P_NAMES = ['alice', 'bobby', 'carol', 'Alice', 'na', 'NM', 'all']
 P_MASKS = ['*!*@*.isp.example', '*!*@home.alice.example', 'n?!*@*.example', 'nm!*@*.example', '*!ua@*', 'nb!ub@b.example',
            '*!*@dyn?.isp.example', 'NM!UM@DYN7.ISP.EXAMPLE', 'n{!*@*.example', '*!*@*', 'nq!*@*']
 P_PWS = ['pw1', 'pw2', 'wrong']
+# other clients that carry a nick of P_PREF, and the nicks the server announces
+P_TWINS = ['na!ux@cafe.example', 'NA!ua@home.alice.example', 'nm!um@dyn8.isp.example']
+P_NICKS = ['na', 'nz', 'NM', 'nb', 'n{', 'n[']
 
 def classify(texts):
     t = ' '.join(texts)
@@ -532,6 +559,8 @@ def classify(texts):
     return 'iam\t' + wire.enc(t)
 
 def p_text(c):
+    # an argument with a bracket is quoted: unquoted, `[` opens a nested command
+    c = tuple(('"%s"' % x) if isinstance(x, str) and i >= 2 and ('[' in x or ']' in x) else x for i, x in enumerate(c))
     k = c[0]
     if k == 'p_register': return 'user register %s %s' % (c[2], c[3])
     if k == 'p_identify': return 'user identify %s %s' % (c[2], c[3])
@@ -553,6 +582,8 @@ def p_wire(c):
     if k == 'p_secure': return 'p_secure\t%s\t%s\t%d' % (E(c[1]), E(c[2]), c[3])
     if k == 'p_changename': return 'p_changename\t%s\t%s\t%s\t%s' % (E(c[1]), E(c[2]), E(c[3]), E(c[4]))
     if k == 'p_ambient': return 'p_ambient\t%d\t%d\t%d' % (c[1], c[2], c[3])
+    if k == 'p_follow': return 'p_follow\t%d' % c[1]
+    if k == 'p_nick': return 'p_nick\t%s\t%s' % (E(c[1]), E(c[2]))
     if k == 'dump': return 'dump'
     raise ValueError(c)
 
@@ -560,8 +591,12 @@ def gen_pcmd(r, impl):
     """one command, chosen with a look at the accounts that exist (names given to `hostmask add/remove <name> …`
     are existing account names, as the command's argument parsing depends on it)"""
     names = [u.name for u in impl.U.users.values() if u.name] or ['alice']
-    p = r.choice(P_PREF)
+    known = sorted(impl.b.irc.state.nicksToHostmasks.values()) or P_PREF
+    p = r.choice(P_PREF) if r.random() < 0.7 else r.choice(P_TWINS + known)
     x = r.random()
+    if r.random() < 0.10:
+        # mostly somebody the bot has seen (a renamed client keeps talking under its new hostmask)
+        return ('p_nick', r.choice(known + P_TWINS) if r.random() < 0.85 else p, r.choice(P_NICKS))
     if x < 0.14 or not impl.U.users:
         return ('p_register', p, r.choice(P_NAMES) if r.random() < 0.9 else 'x!y@z', r.choice(P_PWS[:2]))
     if x < 0.40:
@@ -597,6 +632,19 @@ P_CORPUS = [
   ('p_secure', P_PREF[0], 'pw1', 1), ('p_identify', P_PREF[1], 'alice', 'pw1'), ('p_tick', 5),
   ('p_hostrm', P_PREF[0], 'alice', '*!*@*.isp.example', 'pw1'), ('p_identify', P_PREF[1], 'alice', 'pw1'), ('p_tick', 70),
   ('p_whoami', P_PREF[1])],
+ # Irc.doNick follows a login through a nick change: only the NICK sender's own login moves (seeded change C04-r2m3)
+ [('reset', 0), ('p_follow', 1), ('p_register', P_PREF[0], 'alice', 'pw1'), ('p_tick', 1),
+  ('p_identify', 'na!ux@cafe.example', 'alice', 'pw1'), ('p_tick', 1), ('p_identify', P_PREF[0], 'alice', 'pw1'),
+  ('p_nick', P_PREF[0], 'nz'), ('p_whoami', 'nz!ua@home.alice.example'), ('p_whoami', 'na!ux@cafe.example'),
+  ('p_whoami', 'nz!ux@cafe.example'), ('p_hostrm', 'nz!ua@home.alice.example', None, P_PREF[0], ''),
+  ('p_whoami', 'nz!ua@home.alice.example'), ('p_whoami', P_PREF[0])],
+ # … compared under IRC case rules: the login was made as NA!…, the NICK message comes from na!…
+ [('reset', 0), ('p_follow', 1), ('p_register', P_PREF[0], 'alice', 'pw1'), ('p_identify', 'NA!ua@home.alice.example', 'alice', 'pw1'),
+  ('p_nick', P_PREF[0], 'nz'), ('p_whoami', 'nz!ua@home.alice.example'), ('p_whoami', 'NA!ua@home.alice.example')],
+ # the same messages with the option off: nothing moves
+ [('reset', 0), ('p_register', P_PREF[0], 'alice', 'pw1'), ('p_hostrm', P_PREF[0], None, P_PREF[0], ''),
+  ('p_identify', P_PREF[0], 'alice', 'pw1'), ('p_nick', P_PREF[0], 'nz'), ('p_whoami', 'nz!ua@home.alice.example'),
+  ('p_whoami', P_PREF[0]), ('p_identify', 'nb!ub@b.example', 'nz', 'pw1')],
 ]
 
 def n_matching(impl, p):
@@ -611,7 +659,9 @@ def run_phistory(impl, r, n, kind, fixed=None):
         nonlocal ok, msg
         if ok: ok = False; msg = m
     secrets = {}       # uid -> password given at registration (the harness's own record)
-    glog = set()       # ghost log: (uid, time, hostmask) of identify commands sent with the account's password
+    glog = set()       # ghost log: (uid, time, hostmask, origin): identify commands sent from `origin` with the account's
+                       # password; hostmask != origin only after a followed NICK message
+    follow = False; ever_followed = False
     it = iter(fixed) if fixed is not None else None
     first = True
     while True:
@@ -627,13 +677,44 @@ def run_phistory(impl, r, n, kind, fixed=None):
         k = c[0]
         by_name = None
         if k == 'reset':
-            impl.reset(c[1]); out = 'ok'; secrets = {}; glog = set()
+            impl.reset(c[1]); out = 'ok'; secrets = {}; glog = set(); follow = False; ever_followed = False
             impl.b.irc.state.nicksToHostmasks.clear()
             outs.append(out); lines.append(p_wire(c))
             out = 'ok'; c2 = ('p_ambient',) + impl.ambient()
             lines.append(p_wire(c2)); outs.append(out)
             trace.append('%3d %-100s -> ok' % (len(cmds) - 1, repr(c)[:100]))
+            if it is None and r.random() < 0.5:
+                c = ('p_follow', 1); cmds.append(c)
+                impl.set_follow(True); follow = True; ever_followed = True
+                lines.append(p_wire(c)); outs.append('ok')
+                trace.append('%3d %-100s -> ok' % (len(cmds) - 1, repr(c)))
             continue
+        elif k == 'p_follow':
+            impl.set_follow(c[1]); follow = bool(c[1]); ever_followed = ever_followed or follow
+            outs.append('ok'); lines.append(p_wire(c))
+            trace.append('%3d %-100s -> ok' % (len(cmds) - 1, repr(c)))
+            continue
+        elif k == 'p_nick':
+            p_, nn = c[1], c[2]
+            # the account the sender is recognised as, from the records as they are (the harness's own reading)
+            rec = [i for i, u in impl.U.users.items()
+                   if any(o_glob(str(m), p_) for m in u.hostmasks) or any(h == p_ for (t, h) in impl.live_auth(u))]
+            moved = set()
+            if follow and len(rec) == 1 and o_is_hostmask(p_) and nn:
+                i = rec[0]; newhm = nn + p_[p_.index('!'):]
+                held = set(impl.live_auth(impl.U.users[i]))
+                moved = set((i, t, newhm, o) for (j, t, h, o) in glog if j == i and o_lower(h) == o_lower(p_) and (t, h) in held)
+            del impl.dup_lookups[:]
+            out = impl.nick(p_, nn)
+            # (the rewriting precedes `setUser`: the login has moved even when that raises)
+            glog |= moved
+            if moved: tags.add('login-followed')
+            for (i_, t_, h_, o_) in moved:
+                now_held = impl.live_auth(impl.U.users[i_])
+                if out == 'silent' and (t_, h_) not in now_held:      # (an escaping setUser stops the loop after its first entry)
+                    fail('command %d %r: supybot.followIdentificationThroughNickChanges is on and the sender is logged in to account %d, '
+                         'but the login (t=%d) was not moved to %s' % (len(cmds) - 1, c, i_, t_, h_))
+            tags.add('p_nick:' + out + (':on' if follow else ':off'))
         elif k == 'p_tick':
             impl.clock.now += c[1]; out = 'success'
         else:
@@ -646,7 +727,8 @@ def run_phistory(impl, r, n, kind, fixed=None):
                     target = by_name[0]
                 else:
                     seen = impl.b.irc.state.nicksToHostmasks
-                    hm = seen.get(c[2]) if c[2] in seen else (c[1] if o_lower(c[2]) == o_lower(c[1].split('!')[0]) else None)
+                    # (the bot notes the sender of the command before it runs it)
+                    hm = c[1] if o_lower(c[2]) == o_lower(c[1].split('!')[0]) else (seen.get(c[2]) if c[2] in seen else None)
                     if hm is not None:
                         m_ = [i for i, u in impl.U.users.items()
                               if any(o_glob(str(x), hm) for x in u.hostmasks) or any(h == hm for (t, h) in impl.live_auth(u))]
@@ -664,7 +746,7 @@ def run_phistory(impl, r, n, kind, fixed=None):
                 for i in set(impl.U.users) - before:
                     secrets[i] = c[3]
             if k == 'p_identify' and target is not None and secrets.get(target) == c[3]:
-                glog.add((target, impl.clock.now, c[1]))
+                glog.add((target, impl.clock.now, c[1], c[1]))
             tags.add(k + ':' + out.split('\t')[0])
         outs.append(out); lines.append(p_wire(c))
         trace.append('%3d %-100s -> %s' % (len(cmds) - 1, repr(c)[:100], out.replace('\t', ' ')))
@@ -675,14 +757,23 @@ def run_phistory(impl, r, n, kind, fixed=None):
                     lines.append(wire_line(('order', i, cur))); outs.append('ok')
         # state, caches and ghost log after every command
         lines.append('dump'); outs.append(impl.dump())          # records AND both caches
-        lines.append('p_log'); outs.append(','.join(sorted('%d:%d:%s' % (i, t, wire.enc(h)) for (i, t, h) in glog)) or '-')
+        live_now = lambda t: not (impl.timeout and t + impl.timeout < impl.clock.now)
+        lines.append('p_log'); outs.append(','.join(sorted('%d:%d:%s:%s' % (i, t, wire.enc(h), wire.enc(o))
+                                                            for (i, t, h, o) in glog if live_now(t))) or '-')
+        backed = set((i, t, h) for (i, t, h, o) in glog)
         # ---- the property on the implementation
         for i, u in impl.U.users.items():
             for (t, h) in impl.live_auth(u):
-                if (i, t, h) not in glog:
-                    fail('command %d %r: account %d (%s) holds a login (t=%d, %s) that no identify with its password from that hostmask created'
-                         % (len(cmds) - 1, c, i, u.name, t, h))
+                if (i, t, h) not in backed:
+                    fail('command %d %r: account %d (%s) holds a login (t=%d, %s) that goes back to no identify with its password from that hostmask%s'
+                         % (len(cmds) - 1, c, i, u.name, t, h,
+                            ' (or from the hostmask the server said it was renamed from)' if ever_followed else ''))
                     tags.add('unbacked-login')
+                for (j, t2, h2, o) in glog:
+                    if (j, t2, h2) == (i, t, h) and h2 != o:
+                        # a followed login: only ever with the option on, and only the nick may differ
+                        if not ever_followed or o_lower(h2.split('!', 1)[1]) != o_lower(o.split('!', 1)[1]):
+                            fail('command %d %r: the login (t=%d, %s) of account %d was moved from %s' % (len(cmds) - 1, c, t, h2, i, o))
             if u.secure:
                 for (t, h) in impl.live_auth(u):
                     if k == 'p_identify' and out == 'success' and by_name and by_name[0] == i and h == c[1] and t == impl.clock.now \
@@ -693,8 +784,9 @@ def run_phistory(impl, r, n, kind, fixed=None):
             nm = wire.dec(out.split('\t')[1])
             who = [u for u in impl.U.users.values() if u.name == nm]
             if who:
-                u = who[0]
-                if not (any(o_glob(str(m), c[1]) for m in u.hostmasks) or any((u.id, t, c[1]) in glog for (t, h) in impl.live_auth(u) if h == c[1])):
+                # (changename accepts a name that looks like a hostmask, even twice: any account of that name will do)
+                if not any(any(o_glob(str(m), c[1]) for m in u.hostmasks) or any((u.id, t, c[1]) in backed for (t, h) in impl.live_auth(u) if h == c[1])
+                           for u in who):
                     fail('command %d: %s is recognised as %s without a matching mask or a password-backed login' % (len(cmds) - 1, c[1], nm))
     inp = {'pcmds': [list(c) for c in cmds]}
     if kind == 'replay':
